@@ -92,7 +92,7 @@ TIME_PATTERNS = [
 ]
 
 
-def exhaustive(alphabet, max_len, Ds, ids, ties=("events", "timers"), progress=False):
+def exhaustive(alphabet, max_len, Ds, ids, ties=("events", "timers", "io"), progress=False):
     k = 0
     for n in range(0, max_len + 1):
         for word in itertools.product(alphabet, repeat=n):
@@ -128,8 +128,10 @@ def seeded(rng, alphabet, weights=None, max_len=12, ids=None, progress_p=0.5, ca
         "id": rng.choice(ids or [{"s": "abc"}, {"s": "7"}, {"s": "-12"}, None, {"s": "9c0e2b0e-1b7f-4a52-9a55-2f1f7a0e3c11"},
                                  {"s": ""}, {"i": 0}, {"i": 7}, {"s": "0"}, {"s": " x "}]),
         "method": rng.choice(["tools/list", "resources/read", "x/y"]),
-        "params": rng.choice([None, {}, {"a": {"b": None}}, {"_meta": {"k": 1}, "z": [1, None]}]),
-        "D": D, "tie": rng.choice(["events", "timers"]),
+        "params": rng.choice([None, {}, {"a": {"b": None}}, {"_meta": {"k": 1}, "z": [1, None]},
+                              # a params dict that already carries a progress token (a reused dict, a retry)
+                              {"_meta": {"progressToken": "stale-token"}, "q": 1}, {"_meta": {"progressToken": 0}}]),
+        "D": D, "tie": rng.choice(["events", "timers", "io"]),
         "progress": rng.random() < progress_p,
         "ev": [[a, sym_event(s, k=rng.randint(0, 9))] for a, s in zip(times, word)],
     }
